@@ -63,6 +63,8 @@ def gen_case(ctx):
             'how': rng.choice(['arg', 'dict', 'global', 'mixed']),
             'src': [rng.choice(['arg', 'dict', 'global']) for _ in range(3)],
             'cov': rng.choice([None, None, 1, 2])}
+    # overall scale of the data (exact power of two): the estimator is scale covariant, no absolute threshold may enter
+    case['scale2'] = rng.choice([0, 0, 0, 0, 0, -70, -58, -30, 45, 100])
     case['via'] = [None, None, None, 'gm', 'corr', 'corrmat', 'cobs', None][(len(reps) + sum(len(r['samples']) for r in reps)) % 8]     # entry point of the analysis (no extra random draw)
     return case
 
@@ -77,7 +79,7 @@ def build_obs(case):
         for r in rl:
             d = r['idl']
             idl.append(range(d['range'][0], d['range'][0] + d['range'][1] * d['range'][2], d['range'][2]) if 'range' in d else list(d['list']))
-        o = pe.Obs([np.array([float.fromhex(x) for x in r['samples']]) for r in rl], [r['name'] for r in rl], idl=idl)
+        o = pe.Obs([np.array([float.fromhex(x) for x in r['samples']]) * 2.0 ** case.get('scale2', 0) for r in rl], [r['name'] for r in rl], idl=idl)
         total = o if total is None else total + 0.5 * o
     if case.get('cov') == 1:
         total = total + pe.cov_Obs(1.5, 0.25, 'cvA')
@@ -281,6 +283,7 @@ def run(ctx):
         ctx.count('how=' + case['how'])
         ctx.count('fft=%s' % case['fft'])
         ctx.count('S=%s' % case['S'])
+        ctx.count('scale2=%s' % case.get('scale2', 0))
         ctx.count('tau_exp>0' if case['tau_exp'] > 0 else 'tau_exp=0')
         ctx.count('nreps=%d' % len(case['reps']))
         for r in case['reps']:
